@@ -145,6 +145,17 @@ impl Array8 {
         self.estimator.hip_accum()
     }
 
+    /// Whether the HIP accumulator has been invalidated (merged or out-of-order input)
+    pub(super) fn is_out_of_order(&self) -> bool {
+        self.estimator.is_out_of_order()
+    }
+
+    /// Adopt the estimator mode and HIP accumulator of an array holding the same registers
+    pub(super) fn set_estimator_mode(&mut self, out_of_order: bool, hip_accum: f64) {
+        self.estimator.set_out_of_order(out_of_order);
+        self.estimator.set_hip_accum(hip_accum);
+    }
+
     /// Directly set a register value
     ///
     /// This bypasses the normal update path and directly modifies the register.
